@@ -13,6 +13,7 @@ import PercevalModel.Model.C20
     {"op":"maxralph","pairs":[[a,b],…],"extra":[[a,b],…]}  -> {"pairs":[[a,b],…]}
     {"op":"swap","cIdx":i,"cData":j}   -> {"first":f,"perm":[…]} | {"err":"IndexError"}
     {"op":"modemap","cIdx":i,"cData":j} -> {"map":[[k,v],…]}
+    {"op":"psswap","fixed":bool,"a":a,"b":b,"conds":[[mode,…],…]} -> {"conds":[[mode,…],…]}  (qubits a, b swapped)
     {"op":"cqdecl","decls":[[name,size|-1],…],"refs":[[name,idx|-1],…]}
         -> {"names":[…],"n":qubits,"idx":[k|null,…]}   (cQASM declarations: size -1 = single qubit)
 -/
@@ -119,6 +120,13 @@ def handle (j : Json) : Json :=
       | none => throw "IndexError"
     | "modemap" =>
       return Json.mkObj [("map", edgesToJson (createModeMap (← natOf j "cIdx") (← natOf j "cData")))]
+    | "psswap" =>
+      let fixed ← boolOf j "fixed"
+      let a ← natOf j "a"
+      let b ← natOf j "b"
+      if a = b then throw "a = b"
+      let cs ← (← arrOf j "conds").toList.mapM natList
+      return Json.mkObj [("conds", toJson (cs.map (condAfterSwap fixed a b)))]
     | "cqdecl" =>
       let ds ← (← arrOf j "decls").toList.mapM declOfJson
       let refs ← (← arrOf j "refs").toList.mapM refOfJson
